@@ -1,0 +1,48 @@
+//go:build verif
+
+package boxes
+
+// Read-only accessors used by the /verif C09 check (box generation rules).
+// Nothing here is compiled without the `verif` build tag.
+
+import (
+	"github.com/benoitkugler/webrender/css/counters"
+	pr "github.com/benoitkugler/webrender/css/properties"
+	"github.com/benoitkugler/webrender/html/tree"
+	"github.com/benoitkugler/webrender/utils"
+)
+
+// VerifC09ElementToBox returns the box tree of the document as it is BEFORE
+// CreateAnonymousBox runs (the first half of BuildFormattingStructure).
+func VerifC09ElementToBox(elementTree *utils.HTMLNode, styleFor *tree.StyleFor, resolver URLResolver,
+	baseUrl string, targetCollector *tree.TargetCollector, cs counters.CounterStyle, footnotes *[]Box,
+) Box {
+	boxList := elementToBox(elementTree, styleFor, resolver, baseUrl, targetCollector, cs, nil, footnotes)
+	var box Box
+	if len(boxList) > 0 {
+		box = boxList[0]
+	} else { //  No root element
+		rsf := rootStyleFor{elementTree: elementTree, StyleFor: *styleFor}
+		box = elementToBox(elementTree, rsf, resolver, baseUrl, targetCollector, cs, nil, footnotes)[0]
+	}
+	targetCollector.CheckPendingTargets()
+	box.Box().IsForRootElement = true
+	return box
+}
+
+// VerifC09TableFlags exposes the three unexported table-model flags of a box.
+func VerifC09TableFlags(b Box) (properTableChild, internalTableOrCaption, tabularContainer bool) {
+	f := b.Box()
+	return f.properTableChild, f.internalTableOrCaption, f.tabularContainer
+}
+
+// VerifC09MakeBox runs makeBox (the display -> box type switch) on a style.
+func VerifC09MakeBox(style pr.ElementStyle, element *utils.HTMLNode) (Box, error) {
+	return makeBox(style, nil, element, "")
+}
+
+// VerifC09IntegerAttribute is integerAttribute (colspan / rowspan / span parsing).
+func VerifC09IntegerAttribute(attr string, minimum int) int { return integerAttribute(attr, minimum) }
+
+// VerifC09IsWhitespace is isWhitespace with the default predicate.
+func VerifC09IsWhitespace(b Box) bool { return isWhitespace(b, nil) }
